@@ -19,15 +19,27 @@ fn nested(k: u64) -> SelectStatement {
     q
 }
 
+/// a value for the k-th call: mostly small integers, and the values whose equality is delicate (NaN in a float, in a vector and
+/// in an array, negative zero, a decimal with trailing zeros, JSON, typed NULLs) — a statement holding one must still be equal to
+/// its clone and to what take() returns
+pub fn kv(k: u64) -> Value {
+    match k % 16 {
+        6 => Value::Float(Some(f32::NAN)), 7 => Value::Double(Some(-0.0)), 8 => Value::Vector(Some(Box::new(pgvector::Vector::from(vec![1.0f32, f32::NAN, -0.0])))),
+        9 => Value::Array(ArrayType::Double, Some(Box::new(vec![Value::Double(Some(f64::NAN)), Value::Double(None), Value::Double(Some(1.5))]))),
+        10 => Value::Json(Some(Box::new(serde_json::json!({"a": [1, null, -0.0], "b": "x"})))), 11 => Value::Decimal(Some(Box::new(rust_decimal::Decimal::new(1500, 3)))),
+        12 => Value::String(None), 13 => Value::Array(ArrayType::Int, None), 14 => Value::Double(Some(f64::NAN)),
+        _ => Value::Int(Some(k as i32)),
+    }
+}
 pub fn select_calls() -> Vec<Call<SelectStatement>> {
     vec![
         ("distinct", |s, _| { s.distinct(); }),
         ("selects", |s, k| { if k % 2 == 0 { s.column(a("c1")); } else { s.expr_as(Expr::col(a("c2")).add(k as i32), a("e")); } }),
         ("from", |s, k| { if k % 3 == 2 { s.from_subquery(nested(k), a("sq")); } else { s.from(a(if k % 2 == 0 { "t" } else { "u" })); } }),
         ("join", |s, k| { s.left_join(a("j"), Expr::col((a("j"), a("id"))).equals((a("t"), a("id"))).and(Expr::col(a("x")).eq(k as i32))); }),
-        ("where", |s, k| { s.and_where(Expr::col(a("w")).eq(k as i32)); }),
+        ("where", |s, k| { s.and_where(Expr::col(a("w")).eq(kv(k))); }),
         ("groups", |s, _| { s.group_by_col(a("g")); }),
-        ("having", |s, k| { s.and_having(Expr::col(a("h")).gt(k as i32)); }),
+        ("having", |s, k| { s.and_having(Expr::col(a("h")).gt(kv(k))); }),
         ("unions", |s, k| { s.union(if k % 2 == 0 { UnionType::All } else { UnionType::Distinct }, nested(k)); }),
         ("orders", |s, k| { s.order_by(a("o"), if k % 2 == 0 { Order::Asc } else { Order::Desc }); }),
         ("limit", |s, k| { s.limit(k % 7 + 1); }),
@@ -149,15 +161,15 @@ pub fn run(ctx: &mut Ctx) {
         take: Some(|s| s.take()), eq: dbg_eq, render: render_s, left_is_new: false, clearers: vec![] }, n / 6);
     // clone-only statements
     run_spec(ctx, &Spec::<InsertStatement> { name: "InsertStatement", mk: InsertStatement::new, calls: vec![
-            ("table", |s, _| { s.into_table(a("t")); }), ("columns", |s, _| { s.columns([a("x"), a("y")]); }), ("values", |s, k| { let _ = s.values([Expr::val(k as i32).into(), Expr::val(1).into()]); }),
+            ("table", |s, _| { s.into_table(a("t")); }), ("columns", |s, _| { s.columns([a("x"), a("y")]); }), ("values", |s, k| { let _ = s.values([Expr::val(kv(k)).into(), Expr::val(1).into()]); }),
             ("returning", |s, _| { s.returning_col(a("x")); }), ("on_conflict", |s, _| { s.on_conflict(OnConflict::column(a("x")).update_column(a("y")).to_owned()); }), ("default_values", |s, _| { s.or_default_values(); })],
         take: None, eq: |x, y| x == y, render: render_q, left_is_new: false, clearers: vec![] }, n / 2);
     run_spec(ctx, &Spec::<UpdateStatement> { name: "UpdateStatement", mk: UpdateStatement::new, calls: vec![
-            ("table", |s, _| { s.table(a("t")); }), ("values", |s, k| { s.value(a("x"), k as i32); }), ("where", |s, k| { s.and_where(Expr::col(a("w")).eq(k as i32)); }),
+            ("table", |s, _| { s.table(a("t")); }), ("values", |s, k| { s.value(a("x"), kv(k)); }), ("where", |s, k| { s.and_where(Expr::col(a("w")).eq(kv(k))); }),
             ("orders", |s, _| { s.order_by(a("o"), Order::Asc); }), ("limit", |s, k| { s.limit(k + 1); }), ("returning", |s, _| { s.returning_col(a("x")); }), ("from", |s, _| { s.from(a("f")); })],
         take: None, eq: |x, y| x == y, render: render_q, left_is_new: false, clearers: vec![("clear_order_by", "orders", |s| { s.clear_order_by(); })] }, n / 2);
     run_spec(ctx, &Spec::<DeleteStatement> { name: "DeleteStatement", mk: DeleteStatement::new, calls: vec![
-            ("table", |s, _| { s.from_table(a("t")); }), ("where", |s, k| { s.and_where(Expr::col(a("w")).eq(k as i32)); }), ("orders", |s, _| { s.order_by(a("o"), Order::Desc); }),
+            ("table", |s, _| { s.from_table(a("t")); }), ("where", |s, k| { s.and_where(Expr::col(a("w")).eq(kv(k))); }), ("orders", |s, _| { s.order_by(a("o"), Order::Desc); }),
             ("limit", |s, k| { s.limit(k + 1); }), ("returning", |s, _| { s.returning_all(); })],
         take: None, eq: |x, y| x == y, render: render_q, left_is_new: false, clearers: vec![("clear_order_by", "orders", |s| { s.clear_order_by(); })] }, n / 2);
 }
